@@ -164,7 +164,15 @@ func (v4proto) BuildReply(reqWire []byte, kind replyKind, serial uint32, altXid 
 	case rkOtherID:
 		rep.TransactionID = xid4(altXid)
 	case rkWrongHW:
-		rep.ClientHWAddr = otherHW
+		switch serial % 3 {
+		case 0:
+			rep.ClientHWAddr = otherHW
+		case 1:
+			// the client's address is a proper prefix of this one
+			rep.ClientHWAddr = append(append(net.HardwareAddr{}, clientHW...), 0x00, 0x00)
+		case 2:
+			rep.ClientHWAddr = append(net.HardwareAddr{}, clientHW[:5]...)
+		}
 	case rkRequestOp:
 		rep.OpCode = dhcpv4.OpcodeBootRequest
 	}
